@@ -4,6 +4,7 @@
 import Asn1.Generated
 import Proofs.Sound
 import Proofs.Codec
+import Proofs.KernelGate
 
 namespace Asn1.C10
 
@@ -69,5 +70,39 @@ example : (Ty.seq (.cons .req (.prim .integer)
             (.cons (.dflt (.int 5)) (.tagged false .context 1 (.prim .integer))
             (.cons .req (.choice (.cons .req (.prim .null) (.cons .req (.prim (.str 4)) .nil))) .nil))))).WF = true := by
   decide
+
+/-! ### at the source level: the decoders' completeness gate, translated from /repo on this run -/
+
+/-- **a record with a mandatory member missing does not get out of the decoder, at the source level**: the statement
+    `if not namedTypes.requiredComponents.issubset(seenIndices): raise ...` of `ConstructedPayloadDecoderBase.valueDecoder`
+    and of `indefLenValueDecoder` (translated into `GenK.requiredSeen` / `GenK.requiredSeenIndef`) raises the library's error
+    whenever some mandatory position `i` is not among the positions seen - whatever else was seen, in whatever order -/
+theorem source_missing_mandatory_is_refused (req seen : List Nat) (i : Nat) (hi : i ∈ req) (hn : i ∉ seen) :
+    GenK.requiredSeen (Kernels.natInts req) (Kernels.natInts seen) = .error (.lib "PyAsn1Error") ∧
+      GenK.requiredSeenIndef (Kernels.natInts req) (Kernels.natInts seen) = .error (.lib "PyAsn1Error") := by
+  have hall : req.all (fun j => seen.contains j) = false := by
+    rw [Bool.eq_false_iff]
+    intro h
+    rw [List.all_eq_true] at h
+    have := h i hi
+    simp only [List.contains_iff_mem] at this
+    exact hn (by simpa using this)
+  rw [Kernels.requiredSeen_kernel, Kernels.requiredSeenIndef_kernel, hall]
+  exact ⟨rfl, rfl⟩
+
+/-- and conversely the gate lets a complete record through: every mandatory position seen - accepted -/
+theorem source_complete_record_passes (req seen : List Nat) (h : ∀ i ∈ req, i ∈ seen) :
+    GenK.requiredSeen (Kernels.natInts req) (Kernels.natInts seen) = .ok 0 ∧
+      GenK.requiredSeenIndef (Kernels.natInts req) (Kernels.natInts seen) = .ok 0 := by
+  have hall : req.all (fun j => seen.contains j) = true := by
+    rw [List.all_eq_true]
+    intro j hj
+    simpa using h j hj
+  rw [Kernels.requiredSeen_kernel, Kernels.requiredSeenIndef_kernel, hall]
+  exact ⟨rfl, rfl⟩
+
+/-- non-vacuity: mandatory positions 0 and 2 of a three-member SET; members arriving as 2, 1 - position 0 missing -/
+example : GenK.requiredSeen [0, 2] [2, 1] = .error (.lib "PyAsn1Error") := by rfl
+example : GenK.requiredSeen [0, 2] [2, 1, 0] = .ok 0 := by rfl
 
 end Asn1.C10
